@@ -75,6 +75,19 @@ def matrix(rnd, n, signed, directed, binary, diag, dens=None):
     return W
 
 
+def retype(rnd, W):
+    """the caller's container type is part of 'all argument arrays': bool / integer / float32 matrices take other code paths"""
+    r = rnd.random()
+    vals = np.unique(W)
+    if r < 0.12 and set(vals.tolist()) <= {0.0, 1.0}:
+        return W.astype(bool)
+    if r < 0.24 and np.all(W == np.round(W)):
+        return W.astype(rnd.choice((np.int64, np.int32, np.int8)))
+    if r < 0.30:
+        return W.astype(np.float32)
+    return W
+
+
 def labels(rnd, n):
     k = rnd.randint(2, 3)
     base = [rnd.randrange(k) for _ in range(n)]
@@ -108,7 +121,7 @@ def synth(fname, rnd):
         has_default = par.default is not inspect._empty
         val = None
         if pname in MATRIX_NAMES:
-            val = matrix(rnd, n, signed, directed, binary, diag)
+            val = retype(rnd, matrix(rnd, n, signed, directed, binary, diag))
         elif pname in VECTOR_LABEL_NAMES:
             if has_default and rnd.random() < 0.3:
                 continue
